@@ -98,6 +98,26 @@ CHECKS = {
             'transcribed specification table', MC + 'C14: every fact of all '
             '64 classes and Basic.Properties (1600+ facts) compared with the '
             'spec table, statically and behaviourally.', TB, '3/C14'),
+    'C15': ('E1', 'configuration enumeration: one fresh process per TZ '
+            'setting x instants incl. every DST transition x input forms; '
+            'per-child reference check + identical result digests',
+            MC + 'C15: 14 TZ settings (thorough: the whole tz database) x '
+            '~26 k instants x ~12 input forms; bytes == >Q of the absolute '
+            'instant, decoded value UTC-aware; SHA-256 of the whole result '
+            'table identical across children.', TB, '3/C15'),
+    'C16': ('E2+E3', 'explicit-state BFS over library-state snapshots + all '
+            'event histories <= depth (fresh import each) vs fresh-'
+            'interpreter baselines; preemption-bounded exhaustive thread '
+            'schedule exploration (line-level scheduling points)',
+            MC + 'C16: BFS over 37 API events with a deep library-state '
+            'hash closes at 2 states; all histories of depth <= 2 (3) '
+            'replayed from a fresh import and compared per event with a '
+            'fresh-interpreter baseline, aliasing oracle on returned '
+            'objects; 12 thread harnesses, every schedule with <= 2 (3) '
+            'preemptions at source-line granularity, results equal the '
+            'sequential ones; witness harness proves real interleaving.',
+            TB + 'Preemption inside a source line and C-level races are not '
+            'modelled.', '3/C16'),
     'C17': ('E1', 'complete enumeration of reply codes and constants against '
             'a transcribed table', MC + 'C17: all 18 reply codes and all '
             'protocol constants, statically and behaviourally.', TB,
